@@ -169,4 +169,38 @@ theorem getFluxes_eq_getArgsSel (c : Content) (vars : Option (List (Name × Rat)
             dropData_get _ _ _ (hks k (by simp))]
       exact this c.fluxNames hflux
 
+/-! ### vocabulary for the tie to `get_arg_names`' source (Generated/C01Cache.lean) -/
+
+/-- the value of the keyword flag called `name` -/
+def flagVal (f : ArgFlags) : String → Bool
+  | "include_time" => f.time
+  | "include_variables" => f.variables
+  | "include_parameters" => f.parameters
+  | "include_derived_variables" => f.derivedVariables
+  | "include_derived_parameters" => f.derivedParameters
+  | "include_reactions" => f.reactions
+  | "include_surrogate_variables" => f.surrogateVariables
+  | "include_surrogate_fluxes" => f.surrogateFluxes
+  | "include_readouts" => f.readouts
+  | _ => false
+
+/-- the names of one group of `get_arg_names` -/
+def groupNames (c : Content) (cache : Cache) : String → List Name
+  | "time" => ["time"]
+  | "variables" => omKeys c.vars
+  | "parameters" => omKeys c.pars
+  | "derived_variables" => (omKeys c.derived).filter (fun k => !(omKeys cache.allPars).contains k)
+  | "derived_parameters" => (omKeys c.derived).filter (fun k => (omKeys cache.allPars).contains k)
+  | "reactions" => omKeys c.rxns
+  | "surrogate_variables" => surrogateOutputNames c false
+  | "surrogate_fluxes" => surrogateReactionNames c
+  | "readouts" => omKeys c.readouts
+  | _ => []
+
+def argGroup (c : Content) (cache : Cache) (f : ArgFlags) (p : String × String) : List Name :=
+  if flagVal f p.1 then groupNames c cache p.2 else []
+
+/-- lookup-list form of the dict union `a | b` (bindings of `b` shadow those of `a`) -/
+def envUnion (a b : Env) : Env := b ++ a
+
 end Mxl
